@@ -7,7 +7,8 @@ import numpy
 
 def norm_h(x):
     try:
-        return float(numpy.float32(float('%.7g' % x)))
+        with numpy.errstate(over='ignore'):
+            return float(numpy.float32(float('%.7g' % x)))
     except (OverflowError, ValueError):
         return x
 
